@@ -1402,6 +1402,28 @@ func (fc *FnCtx) checkPosts(results []V, pos token.Pos, site string) {
 			}
 		}
 		if c == fc.c {
+			for _, gs := range c.GhostSets {
+				// ghost assignment: only ghost keys can be named, so no real state is touched
+				ts := env.resolveTargetIn(gs[0], fc.cur)
+				vx, err := ParseExpr(gs[1])
+				if err != nil {
+					panic(specErr("ghostset: %v", err))
+				}
+				val := env.eval(vx)
+				for _, mt := range ts {
+					if mt.kind != "ghost" {
+						panic(specErr("ghostset target %s is not a ghost", gs[0]))
+					}
+					if val.C != nil {
+						val = env.constTo(val, types.Typ[types.Int])
+					}
+					for k, key := range mt.keys {
+						srt := fieldSort(mt.sorts[k])
+						arr := fc.heapGet(fc.cur, key, srt)
+						fc.heapSet(fc.cur, key, srt, sx("store", arr, mt.ref, val.T[k]))
+					}
+				}
+			}
 			for _, hc := range c.PostHints {
 				fc.assume(env.evalBool(hc.E))
 			}
@@ -1459,7 +1481,6 @@ func (fc *FnCtx) runDefers() {
 		fc.cur = fc.mergeStates([]string{d.cond, "true"}, []*State{fc.cur, before})
 	}
 }
-
 
 // watchStruct adds the scalar fields reachable from a pointer parameter (two levels) to the model watch list.
 func (fc *FnCtx) watchStruct(name string, v V, st *State, depth int) {
